@@ -61,7 +61,7 @@ def index_within(prog, fn, bb, idx_op, depth=1):
     if last[0] == "arg" and depth > 0 and all(x[0] in ("via", "arg") for x in st) and not last[2]:
         k = last[1]
         callers = prog.callers().get(fn.key, [])
-        if callers and not fn.key.startswith("pub "):
+        if callers and not fn.pub:
             hows = []
             for c in callers:
                 if k - 1 >= len(c.args):
@@ -74,13 +74,44 @@ def index_within(prog, fn, bb, idx_op, depth=1):
     return False, ""
 
 
+def strict_index(prog, fn, bb, idx_op, depth=1):
+    """is the value known to be < the length of the slice it indexes (a position()/find() payload), possibly handed down
+    through parameters of non-public functions? -> (ok, how)"""
+    st = fn.origin(idx_op)
+    if not st:
+        return False, ""
+    if guards.origin_matches(fn, st, {"call": POSITION_RX + r"|^core::str::<impl str>::(find|rfind)$", "payload": "Some"}):
+        return True, "the index is the payload of position()/find() (index < len)"
+    last = st[-1]
+    if last[0] == "arg" and depth > 0 and all(x[0] in ("via", "arg") for x in st) and not last[2]:
+        k = last[1]
+        callers = prog.callers().get(fn.key, [])
+        if callers and not fn.pub:
+            for c in callers:
+                if k - 1 >= len(c.args):
+                    return False, ""
+                ok, how = strict_index(prog, c.fn, c.bb, c.args[k - 1], depth - 1)
+                if not ok:
+                    return False, ""
+            return True, "parameter %d: every one of the %d call site(s) passes a position()/find() payload" % (k, len(callers))
+    return False, ""
+
+
 def auto_discharge(prog, sink):
     """structural patterns that need no audit entry -> (ok, how)"""
     fn = sink.fn
     if sink.kind == "panic-call" and sink.what in ("split_at", "split_at_mut") and len(sink.payload.args) > 1:
-        ok, how = index_within(prog, fn, sink.bb, sink.payload.args[1])
+        ok, how = index_within(prog, fn, sink.bb, sink.payload.args[1], depth=2)
         if ok:
             return True, "split_at: " + how
+    if sink.kind == "assert" and sink.what == "BoundsCheck":
+        iop = guards.sink_operand(sink, "index")
+        st_ = fn.origin(iop) if iop is not None else None
+        # `s[i]` with i the payload of position()/find() on s (index < len), also through a parameter
+        if st_ and (guards.origin_matches(fn, st_, {"call": POSITION_RX + r"|^core::str::<impl str>::(find|rfind)$", "payload": "Some"}) or (st_[-1][0] == "arg" and not st_[-1][2])):
+            ok, how = strict_index(prog, fn, sink.bb, iop, depth=2)
+            if ok:
+                return True, "index: " + how
     # compiler-generated unsafe constructor calls inside format_args!
     if sink.kind == "unsafe-call" and re.search(r"^core::fmt::(Arguments::<'a>::new|rt::Argument::<'_>::new|rt::)", sink.what) and sink.mx:
         return True, "compiler-generated by format_args! (arguments constructed from the literal pieces)"
@@ -137,6 +168,11 @@ def auto_discharge(prog, sink):
     if sink.kind == "panic-call" and sink.what == "chunks(0)" and len(sink.payload.args) > 1:
         st = fn.origin(sink.payload.args[1])
         v = guards.const_int(st[-1][1]) if st and st[-1][0] == "const" else None
+        if v is None and st and st[-1][0] == "call" and st[-1][1].name == "len" and st[-1][1].args:
+            # the length of a (named) byte-string constant
+            a = fn.origin(st[-1][1].args[0])
+            if a and a[-1][0] == "const" and (a[-1][1].get("b") or a[-1][1].get("s")):
+                v = len(a[-1][1].get("b") or a[-1][1].get("s"))
         if v is not None and v > 0:
             return True, "the window/chunk size is the literal %d" % v
     if sink.kind == "assert" and sink.what == "BoundsCheck":
